@@ -1702,36 +1702,8 @@ func (ctx *RenderContext) contains(container, item interface{}) (bool, error) {
 		// Use string conversion only once
 		return strings.Contains(c, ctx.ToString(item)), nil
 	case []interface{}:
-		// For small slices, linear search is fine
-		// For larger slices (>50 items), consider a map-based approach
-		if len(c) > 50 {
-			// Create a temporary map for O(1) lookups
-			// Only worth doing for sufficiently large slices
-			tempMap := make(map[interface{}]struct{}, len(c))
-			for _, v := range c {
-				tempMap[v] = struct{}{}
-			}
-
-			// For numeric items, try direct lookup first
-			if _, ok := tempMap[item]; ok {
-				return true, nil
-			}
-
-			// For string-comparable items, try string version
-			if _, ok := tempMap[ctx.ToString(item)]; ok {
-				return true, nil
-			}
-
-			// Fall back to deep equality comparison
-			for k := range tempMap {
-				if ctx.equals(k, item) {
-					return true, nil
-				}
-			}
-			return false, nil
-		}
-
-		// For small slices, linear search
+		// Linear search: the elements may be of any type, including ones that
+		// cannot be map keys (slices, maps)
 		for _, v := range c {
 			if ctx.equals(v, item) {
 				return true, nil
@@ -1751,34 +1723,7 @@ func (ctx *RenderContext) contains(container, item interface{}) (bool, error) {
 	case reflect.String:
 		return strings.Contains(rv.String(), ctx.ToString(item)), nil
 	case reflect.Array, reflect.Slice:
-		// Optimize for large slices/arrays
-		if rv.Len() > 50 {
-			// Same map-based optimization as above
-			tempMap := make(map[interface{}]struct{}, rv.Len())
-			for i := 0; i < rv.Len(); i++ {
-				tempMap[rv.Index(i).Interface()] = struct{}{}
-			}
-
-			// Try direct lookup
-			if _, ok := tempMap[item]; ok {
-				return true, nil
-			}
-
-			// Try string-based lookup
-			if _, ok := tempMap[ctx.ToString(item)]; ok {
-				return true, nil
-			}
-
-			// Fall back to equality comparison
-			for k := range tempMap {
-				if ctx.equals(k, item) {
-					return true, nil
-				}
-			}
-			return false, nil
-		}
-
-		// For small collections, linear search
+		// Linear search
 		for i := 0; i < rv.Len(); i++ {
 			if ctx.equals(rv.Index(i).Interface(), item) {
 				return true, nil
